@@ -379,7 +379,7 @@ def r17_2(rep: Report, models: dict[str, Model]) -> None:
                      'unique constraint', m.columns.get(cols[0]).node if m.columns.get(cols[0]) else None)
 
 
-def r17_4(rep: Report) -> None:
+def r17_4(rep: Report, models: dict | None = None) -> None:
     rid = 'R17.4'
     rel = f'{MODELS_DIR}/stream.py'
     tree = rep.repo.tree(rel)
@@ -407,6 +407,29 @@ def r17_4(rep: Report) -> None:
                              'same block: the row goes, the file stays', st)
     if n_del < 2:
         raise AnalysisError('Stream.add_file: replace-on-upload idiom not recognised')
+    # the row that is replaced is looked up with the scope of its uniqueness constraint: a lookup
+    # narrowed by further columns misses the row that still blocks the insert
+    for n in ast.walk(fn):
+        if isinstance(n, ast.Assign) and isinstance(n.value, ast.Call) and isinstance(n.targets[0], ast.Name) \
+                and isinstance(n.value.func, ast.Attribute) and n.value.func.attr in ('get', 'get_one') \
+                and isinstance(n.value.func.value, ast.Name) and models and n.value.func.value.id in models:
+            var, mname = n.targets[0].id, n.value.func.value.id
+            deleted = any(isinstance(c, ast.Call) and call_name(c) == f'{var}.delete' and c.lineno > n.lineno
+                          for c in ast.walk(fn))
+            if not deleted:
+                continue
+            keys = {k.arg for k in n.value.keywords}
+            uniq = {c.name for c in models[mname].columns.values() if c.unique}
+            key = f'{mname}.{n.value.func.attr}({", ".join(sorted(keys))}) replaced'
+            if keys and keys <= uniq and len(keys) == 1:
+                rep.ok(rid, construct, key, f'{sorted(keys)[0]} is unique across the store')
+            else:
+                extra = sorted(keys - uniq)
+                rep.fail(rid, construct, key,
+                         f'the row to be replaced is looked up by {sorted(keys)}; {mname} is unique on '
+                         f'{sorted(uniq)} alone, so narrowing by {extra} misses a row of the same name that '
+                         'belongs elsewhere - the insert then violates the constraint after files were '
+                         'already deleted/written', n)
     # new rows are added together and committed together
     adds = [n for n in ast.walk(fn) if isinstance(n, ast.Call)
             and (call_name(n) or '').endswith('session.add')]
@@ -484,4 +507,4 @@ def analyse(rep: Report) -> None:
     r17_1_soft(rep, idx, cg, sites)
     r17_2(rep, models)
     r17_3(rep, idx, cg)
-    r17_4(rep)
+    r17_4(rep, models)
